@@ -9,8 +9,7 @@
 (* time values.  A TARGET is a callable together with one receiver of      *)
 (* CrashDomain!Receivers.  For every target TLC enumerates                 *)
 (*   quick   : arity 0 and 1 over the whole pool, arity 2 over the 10-value*)
-(*             sub-pool, arity 3 as an orthogonal array over the sub-pool, *)
-(*             one keyword form per keyword name                           *)
+(*             sub-pool, two keyword forms per keyword name                *)
 (*   thorough: arity 0..2 over the whole pool, arity 3 as an orthogonal    *)
 (*             array of strength 2 over the whole pool (every pair of      *)
 (*             values in every pair of positions), keyword forms           *)
@@ -64,7 +63,7 @@ ASSUME P <= 53 /\ Len(SubVals) <= 11
 ASSUME PairwiseCovers(A3quick, SubIx)
 ASSUME Tier = "thorough" => PairwiseCovers(A3thorough, PoolIx)
 
-Positional == IF Tier = "quick" THEN A0 \cup A1 \cup A2(SubIx) \cup A3quick
+Positional == IF Tier = "quick" THEN A0 \cup A1 \cup A2(SubIx)
               ELSE A0 \cup A1 \cup A2(PoolIx) \cup A3thorough
 
 (***************************************************************************)
